@@ -33,6 +33,7 @@ struct E1Config {
     int silentSuffix = 0;       // >= 2: from every stored state, all op sequences of this length without observers in between
     size_t silentSuffixStates = 1000000;
     unsigned long long stopAfterViolations = 2000;
+    bool mergeDifferential = false; // one-step differential check whenever a transition merges into a stored state
     bool silentReduced = false; // silent-suffix pass uses one value per value-carrying operation kind
 };
 
@@ -53,7 +54,7 @@ template <class G> class Explorer {
     std::unordered_map<std::string, int> index;
     std::unordered_map<std::string, G> freshCache;
     std::set<std::string> abstractValues;
-    unsigned long long hiddenVariants = 0, transitions = 0, cutTransitions = 0, clauseEvals = 0, throwingSteps = 0, noopSteps = 0;
+    unsigned long long mergeSteps = 0, hiddenVariants = 0, transitions = 0, cutTransitions = 0, clauseEvals = 0, throwingSteps = 0, noopSteps = 0;
     // hooks for property-specific checks evaluated on every NEW state / every transition
     std::function<void(const G &, const Model &, ClauseSink &)> extraStateCheck;
     std::function<void(const G &before, const Model &mBefore, const Op &, const G &after, const Model &mAfter, ClauseSink &)> extraStepCheck;
@@ -323,6 +324,33 @@ template <class G> class Explorer {
                     h.push_back(op);
                     report(sink, start, h);
                 }
+                if (!isNew && cfg.mergeDifferential && it->second != s) {
+                    // Differential oracle for merged states: the object reached by THIS history and the
+                    // stored representative have the same public-API key and compare equal, so they must
+                    // have the same futures.  One more step of every operation on both; a difference means
+                    // state that neither the key nor == can see.  The arriving object is judged by the model.
+                    for (const Op &op2 : silentAlphabet(m2.n)) {
+                        Model m3(m2);
+                        applyModel(m3, op2, T::fam);
+                        if (!withinCaps(m3)) continue;
+                        G a(g2), b(recs[it->second].g);
+                        applyReal(a, op2);
+                        applyReal(b, op2);
+                        ++mergeSteps;
+                        if (keyOf(a, true) == keyOf(b, true)) continue;
+                        ClauseSink sk;
+                        sk.property = prop;
+                        checkState(a, m3, sk);
+                        unsigned start;
+                        auto h = historyOf(s, &start);
+                        h.push_back(op);
+                        h.push_back(op2);
+                        for (auto &f : sk.failures)
+                            rep.violation(prop + ":" + cfg.name + ":" + f.first + ":merge-differential",
+                                          "after [" + historyText(h) + "] on a graph constructed with " + std::to_string(start) + " vertices (the state before the last call is indistinguishable, by every observer and ==, from one reached by a shorter history, yet behaves differently): " + f.second,
+                                          replayArgs(start, h) + " --observed-prefix " + std::to_string(h.size() - 1));
+                    }
+                }
                 if (isNew) {
                     if (recs.size() >= cfg.maxStates) { stateCapped = true; continue; }
                     index[k] = (int)recs.size();
@@ -486,6 +514,7 @@ template <class G> class Explorer {
             }
         }
         rep.count("silent_suffix_runs", (long long)silentRuns);
+        rep.count("merge_differential_steps", (long long)mergeSteps);
 
         // history-dependent states: concrete key differs from the canonical fresh-built graph
         unsigned long long histDep = 0;
